@@ -281,6 +281,9 @@ def execute(text):
     return out, log
 
 
+SOURCES = []          # sources of the programs judged in this run (C05 reuses them for the block traces)
+
+
 def check_family(run, cfg, label, sample_at=7):
     """returns number of programs compared"""
     res = run_tlc(cfg, timeout=3400)
@@ -307,6 +310,7 @@ def check_family(run, cfg, label, sample_at=7):
 
 def judge(run, rec):
     text = program_src(rec["prog"])
+    SOURCES.append(text)
     want_out = (rec["out"]["t"], norm(val_py(rec["out"]["v"])))
     want_log = ("list", tuple(norm(val_py(x)) for x in rec["log"]))
     out, log = execute(text)
